@@ -28,8 +28,10 @@ CHECK_OUTPUT_KEY = "check_output"
 class Col:
     """one column of values: at(i) -> Sym, null(i) -> z3 Bool"""
 
-    def __init__(self, at, null, kind="real"):
+    def __init__(self, at, null, kind="real", nan=None):
         self.at, self.null, self.kind = at, null, kind
+        # floating point NaN: a VALUE (not null) that polars' is_nan() finds; only columns created with a nan predicate can hold one
+        self.nan = nan or (lambda i: z3.BoolVal(False))
 
 
 def _lit_col(v):
@@ -141,7 +143,14 @@ class Expr:
         return self.is_null().not_()
 
     def is_not_nan(self):
-        return Expr(lambda fr: Col(lambda i: True, self.ev(fr).null, "bool"), self.name)
+        def ev(fr):
+            a = self.ev(fr)
+            return Col(lambda i: SBool(z3.Not(a.nan(i))), a.null, "bool")
+
+        return Expr(ev, self.name)
+
+    def is_nan(self):
+        return self.is_not_nan().not_()
 
     def is_duplicated(self):
         """true on every row whose value occurs on another selected row as well (nulls compare equal to nulls)"""
@@ -356,7 +365,7 @@ class FrameP:
         self.may_fail_when_collected = False  # the query contains a cast polars may have no kernel for
 
     @classmethod
-    def fresh(cls, name, columns=("a",), kinds=None, kind="LazyFrame", pre=True):
+    def fresh(cls, name, columns=("a",), kinds=None, kind="LazyFrame", pre=True, nan_columns=None):
         n = core.sym_int(f"len({name})")
         cur().assume(n >= 0)
         core.register_model_var(f"len({name})", n.z)
@@ -367,7 +376,11 @@ class FrameP:
             sort = {"real": z3.RealSort(), "int": z3.IntSort(), "bool": z3.BoolSort(), "str": z3.StringSort()}[k]
             vf = z3.Function(cur().fresh_name(f"{name}_{c}_val"), z3.IntSort(), sort)
             nf = z3.Function(cur().fresh_name(f"{name}_{c}_null"), z3.IntSort(), z3.BoolSort())
-            cols[c] = Col(lambda i, vf=vf: _wrap(vf(i)), lambda i, nf=nf: nf(i), k)
+            nanf = None
+            if k == "real" and (nan_columns or ()) and c in nan_columns:
+                nanp = z3.Function(cur().fresh_name(f"{name}_{c}_nan"), z3.IntSort(), z3.BoolSort())
+                nanf = lambda i, nanp=nanp, nf=nf: z3.And(nanp(i), z3.Not(nf(i)))  # noqa: E731  (a NaN is a value, never a null)
+            cols[c] = Col(lambda i, vf=vf: _wrap(vf(i)), lambda i, nf=nf: nf(i), k, nan=nanf)
 
             def proj(m, vf=vf, nf=nf, space=space):
                 try:
